@@ -693,6 +693,10 @@ func (g *gramCtx) checkGrammar(c *CheckCtx, gp *gramParser, want gramWant) *gram
 					continue
 				}
 				shapeFails[f.Class+": "+f.Msg+" [path: "+pd+"]"] = true
+				if f.Class == "niltok" {
+					conserveBad = append(conserveBad, fmt.Sprintf("[path: %s] %s", pd, f.Msg))
+					subBad = append(subBad, fmt.Sprintf("[path: %s] %s", pd, f.Msg))
+				}
 			}
 			if p.Aborted != "" {
 				if len(r.fails) == 0 {
